@@ -99,3 +99,7 @@ crate::proof!{ #[kani::unwind(3)] fn c03_q_l1_bool_any_byte_bin() { l1::l1_bool_
 crate::proof!{ #[kani::unwind(3)] fn c03_q_l1_bool_any_byte_unchecked() { l1::l1_bool_any_byte::<PUnchecked>() } }
 crate::proof!{ #[kani::unwind(3)] fn c03_q_l1_bool_any_byte_compact() { l1::l1_bool_any_byte::<PCompact>() } }
 crate::proof!{ #[kani::unwind(5)] fn c03_q_l1_compact_field_alt_forms() { l1::l1_compact_field_alt_forms() } }
+crate::proof!{ #[kani::unwind(5)] fn c03_q_l1_app_exception_w_bin() { l1::l1_app_exception::<PBin, 0>() } }
+crate::proof!{ #[kani::unwind(5)] fn c03_q_l1_app_exception_r_bin() { l1::l1_app_exception::<PBin, 1>() } }
+crate::proof!{ #[kani::unwind(5)] fn c03_t_l1_app_exception_w_unchecked() { l1::l1_app_exception::<PUnchecked, 0>() } }
+crate::proof!{ #[kani::unwind(5)] fn c03_t_l1_app_exception_r_unchecked() { l1::l1_app_exception::<PUnchecked, 1>() } }
